@@ -180,8 +180,11 @@ struct Env {
 			k.occ = occ[idx]++;
 		}
 		int alt = 0;
-		for (const Choice& c : script)
+		for (const Choice& c : script) {
 			if (c.key == k) { alt = c.alt; break; }
+			// occ 0xFFFE: the same decision at every occurrence of this callback in the step (adversarial guard scripts)
+			if (c.key.occ == 0xFFFE && c.key.state == k.state && c.key.meth == k.meth && c.key.layer == k.layer && !sticky) { alt = c.alt; break; }
+		}
 		if (alt >= menu) { error("script alternative out of range (replay divergence)"); alt = 0; }
 		bool seen = false;
 		if (sticky)
